@@ -158,9 +158,10 @@ def gen_jobs(tier, seed, env_text):
             jobs.append({"tid": len(jobs) + 1, "kind": "vals", "vals": vals, "k": k, "chains": chains})
         plan.append({"family": label, "types": len(jobs) - n0, "chains": len(chains)})
 
-    t1small, big, wrap3, tds = TU("t1small"), TU("big"), TU("wrap3"), TU("tds")
+    t1small, big, wrap3, tds, deep = TU("t1small"), TU("big"), TU("wrap3"), TU("tds"), TU("deep")
     small1, wide, tiny2 = VU("small1"), VU("wide"), VU("tiny2")
     vpairs = list(itertools.combinations(small1, 2))
+    add_types("unions over a three-level class hierarchy, every member first (exhaustive)", deep, base, rotations=True)
     if tier == "quick":
         add_types("t1small: atoms, containers, all 2-unions (exhaustive)", t1small, base)
         add_types("t1small x all ordered pairs of rewriters (sampled types)", rng.sample(t1small, 300), pairs)
